@@ -8,13 +8,13 @@ PLANS = {
     "C01": dict(engine=INO, mc=["MC_Events"],
                 quick=[("rand", 300, ""), ("burst", 24, "ks=2+3+17+240+2049"), ("withops", 60, ""), ("moves", 40, ""), ("lag", 120, ""), ("cwd", 30, ""), ("endwatch", 60, ""), ("dselfskip", 30, ""), ("heldparent", 30, ""), ("reops", 40, ""), ("ovflate", 2, ""), ("tlcev", 367, "k=3"), ("tlcev", 300, "k=4"), ("tlcevlag", 400, "k=3"), ("tlcevlag", 300, "k=4")],
                 thorough=[("rand", 6000, ""), ("rand", 1500, "maxops=40"), ("burst", 200, "ks=2+3+17+240+2049+5000"), ("withops", 1500, ""), ("moves", 800, ""), ("overflow", 1, "extra=4000"),
-                          ("lag", 3000, ""), ("cwd", 400, ""), ("endwatch", 1500, ""), ("dselfskip", 300, ""), ("heldparent", 400, ""), ("reops", 600, ""), ("ovflate", 12, ""), ("tlcev", 3000, "k=4"), ("tlcev", 8000, "k=5"), ("tlcevlag", 1500, "k=3"), ("tlcevlag", 8000, "k=4")]),
+                          ("lag", 3000, ""), ("cwd", 400, ""), ("endwatch", 1500, ""), ("dselfskip", 300, ""), ("heldparent", 400, ""), ("reops", 600, ""), ("ovflate", 12, ""), ("tlcevheld", 1453, "k=4"), ("tlcevheldlag", 4000, "k=4"), ("tlcev", 3000, "k=4"), ("tlcev", 8000, "k=5"), ("tlcevlag", 1500, "k=3"), ("tlcevlag", 8000, "k=4")]),
     "C02": dict(engine=INO, mc=["MC_Events"],
                 quick=[("rand", 300, ""), ("lag", 120, ""), ("wsrand", 100, ""), ("withops", 40, ""), ("repoint", 60, ""), ("endwatch", 80, ""), ("recurse", 100, ""), ("recerr", 40, ""), ("heldparent", 30, ""), ("reops", 40, ""), ("tlcev", 367, "k=3"), ("tlcev", 300, "k=4"), ("tlcevlag", 400, "k=3"), ("tlcevlag", 300, "k=4")],
                 thorough=[("rand", 5000, ""), ("lag", 2000, ""), ("wsrand", 2000, ""), ("withops", 800, ""), ("repoint", 800, ""), ("endwatch", 1500, ""), ("recurse", 2000, ""), ("heldparent", 400, ""), ("reops", 600, ""), ("tlcev", 3000, "k=4"), ("tlcev", 8000, "k=5"), ("tlcevlag", 1500, "k=3"), ("tlcevlag", 8000, "k=4")]),
     "C03": dict(engine=INO, mc=["MC_Events"],
-                quick=[("rand", 300, ""), ("burst", 20, "ks=2+3+17+240+700"), ("paced", 40, ""), ("absorb", 24, ""), ("moves", 60, ""), ("lag", 100, ""), ("endwatch", 60, ""), ("heldparent", 40, ""), ("tlcev", 367, "k=3"), ("tlcev", 300, "k=4"), ("tlcevlag", 400, "k=3"), ("tlcevlag", 300, "k=4")],
-                thorough=[("rand", 5000, ""), ("burst", 200, "ks=2+3+17+240+2049+5000"), ("paced", 600, ""), ("absorb", 200, ""), ("moves", 1500, ""), ("lag", 2000, ""), ("endwatch", 1000, ""), ("heldparent", 600, ""), ("tlcev", 3000, "k=4"), ("tlcev", 8000, "k=5"), ("tlcevlag", 1500, "k=3"), ("tlcevlag", 8000, "k=4")]),
+                quick=[("rand", 300, ""), ("burst", 20, "ks=2+3+17+240+700"), ("paced", 40, ""), ("absorb", 24, ""), ("moves", 60, ""), ("lag", 100, ""), ("endwatch", 60, ""), ("heldparent", 40, ""), ("tlcev", 367, "k=3"), ("tlcev", 300, "k=4"), ("tlcevlag", 400, "k=3"), ("tlcevlag", 300, "k=4"), ("tlcevheldlag", 300, "k=4")],
+                thorough=[("rand", 5000, ""), ("burst", 200, "ks=2+3+17+240+2049+5000"), ("paced", 600, ""), ("absorb", 200, ""), ("moves", 1500, ""), ("lag", 2000, ""), ("endwatch", 1000, ""), ("heldparent", 600, ""), ("tlcev", 3000, "k=4"), ("tlcev", 8000, "k=5"), ("tlcevlag", 1500, "k=3"), ("tlcevlag", 8000, "k=4"), ("tlcevheld", 6000, "k=5"), ("tlcevheldlag", 7911, "k=4")]),
     "C04": dict(engine=INO, mc=["MC_WatchSet"],
                 quick=[("wsexh", 196, "k=2"), ("wsexh", 900, "k=3"), ("wsrand", 200, ""), ("repoint", 60, ""), ("tlcws", 600, "k=3"), ("tlcwslag", 334, "k=3"), ("tlcwslag", 400, "k=4"), ("lag", 150, ""), ("endwatch", 100, ""), ("wlpark", 40, ""), ("reops", 60, "")],
                 thorough=[("wsexh", 196, "k=2"), ("wsexh", 2744, "k=3"), ("wsexh", 38416, "k=4"), ("wsrand", 6000, ""), ("repoint", 600, ""), ("tlcws", 100000, "k=4"), ("tlcwslag", 12000, "k=4"),
@@ -28,9 +28,9 @@ PLANS = {
     "C08": dict(engine=INO, mc=["MC_Events"],
                 quick=[("spell", 240, ""), ("burst", 24, "ks=17+240+700"), ("rand", 150, ""), ("repoint", 80, ""), ("tlcev", 367, "k=3"), ("tlcev", 300, "k=4"), ("tlcevlag", 400, "k=3"), ("tlcevlag", 300, "k=4")],
                 thorough=[("spell", 4000, ""), ("burst", 300, "ks=17+240+2049"), ("rand", 3000, ""), ("repoint", 1000, ""), ("tlcev", 3000, "k=4"), ("tlcev", 8000, "k=5"), ("tlcevlag", 1500, "k=3"), ("tlcevlag", 8000, "k=4")]),
-    "C09": dict(engine=INO, mc=["MC_WatchSet", "MC_Events"],
-                quick=[("lag", 200, ""), ("endwatch", 200, ""), ("rand", 150, ""), ("wsrand", 100, ""), ("repoint", 80, ""), ("tlcwslag", 334, "k=3"), ("tlcwslag", 300, "k=4"), ("wlpark", 40, ""), ("dselfskip", 30, ""), ("heldparent", 40, ""), ("reops", 80, "")],
-                thorough=[("lag", 4000, ""), ("endwatch", 4000, ""), ("rand", 3000, ""), ("wsrand", 2000, ""), ("repoint", 1000, ""), ("tlcwslag", 12000, "k=4"), ("wlpark", 400, ""), ("dselfskip", 300, ""), ("heldparent", 600, ""), ("reops", 1200, "")]),
+    "C09": dict(engine=INO, mc=["MC_WatchSet", "MC_Events", "MC_Events_held"],
+                quick=[("lag", 200, ""), ("endwatch", 200, ""), ("rand", 150, ""), ("wsrand", 100, ""), ("repoint", 80, ""), ("tlcwslag", 334, "k=3"), ("tlcwslag", 300, "k=4"), ("wlpark", 40, ""), ("dselfskip", 30, ""), ("heldparent", 40, ""), ("reops", 80, ""), ("tlcevheld", 300, "k=4"), ("tlcevheldlag", 300, "k=4")],
+                thorough=[("lag", 4000, ""), ("endwatch", 4000, ""), ("rand", 3000, ""), ("wsrand", 2000, ""), ("repoint", 1000, ""), ("tlcwslag", 12000, "k=4"), ("wlpark", 400, ""), ("dselfskip", 300, ""), ("heldparent", 600, ""), ("reops", 1200, ""), ("tlcevheld", 1453, "k=4"), ("tlcevheld", 6000, "k=5"), ("tlcevheldlag", 7911, "k=4")]),
     "C10": dict(engine=INO, mc=["MC_Sched"],
                 quick=[("lag", 200, ""), ("rand", 100, ""), ("overflow", 1, "extra=6"), ("ovflate", 2, ""), ("ovfstall", 1, ""), ("readfault", 30, ""), ("recurse", 100, ""), ("recerr", 30, "")],
                 thorough=[("lag", 5000, ""), ("rand", 3000, ""), ("overflow", 3, "extra=1+6+4000"), ("ovflate", 12, ""), ("ovfstall", 6, ""), ("readfault", 600, ""), ("recurse", 2000, ""), ("recerr", 400, "")]),
